@@ -66,8 +66,19 @@ EXTS = [wk.EXT_DEFAULT, wk.EXT_DEFAULT & ~EXT['SMART'], EXT['SMART'], wk.EXT_COM
         wk.EXT_DEFAULT | EXT['COMPLETE'] | EXT['OBFUSCATE'], wk.EXT_DEFAULT | EXT['NO_META']]
 
 
+# second case kind: one slot filled with a long run of letters whose length sweeps the sizes at which formatted output crosses internal buffers,
+# ending in a character whose last UTF-8 byte could be mistaken for white space (0xA0) or a line ending (0x85): the element or attribute that
+# receives the slot must still be closed and the bytes must still be one well-formed document
+SWEEP_TEMPLATES = ['# %s\n\ntext\n', '%s\n=====\n\ntext\n', 'Title: %s\n\nbody\n', 'Author: %s\nTitle: t\n\nbody\n', 'text [a](http://e.x/%s) more\n', '![%s](i.png)\n',
+                   'text[^n] more\n\n[^n]: %s\n', '## %s ##\n\n{{TOC}}\n', '| a |\n| - |\n| c |\n[%s]\n', 'term\n: %s\n', '[%s]: http://e.x/ "t"\n\n[%s][] x\n', 'a [%s][#k]\n\n[#k]: ref\n',
+                   '```%s\ncode\n```\n', 'x [>%s] y\n\n[>%s]: expansion\n']
+SWEEP = st.fixed_dictionaries({'sweep': st.tuples(st.sampled_from(SWEEP_TEMPLATES), st.integers(150, 320), st.sampled_from(['', '', 'à', 'Р', 'é', '中', '…', 'ą'])),
+                               'ext': st.sampled_from(EXTS), 'lang': st.integers(0, 6), 'packages': st.integers(0, 3), 'attrs': st.integers(0, 13)})
+
+
 def strategy(tier):
-    return st.fixed_dictionaries({'doc': gdoc.document(CFG), 'ext': st.sampled_from(EXTS), 'lang': st.integers(0, 6), 'packages': st.integers(0, 3)})
+    return st.one_of(st.fixed_dictionaries({'doc': gdoc.document(CFG), 'ext': st.sampled_from(EXTS), 'lang': st.integers(0, 6), 'packages': st.integers(0, 3), 'attrs': st.integers(0, 13)}),
+                     st.fixed_dictionaries({'doc': gdoc.document(CFG), 'ext': st.sampled_from(EXTS), 'lang': st.integers(0, 6), 'packages': st.integers(0, 3), 'attrs': st.integers(0, 13)}), SWEEP)
 
 
 RAW_HTML = re.compile(r'<(?!!--)(?![A-Za-z][A-Za-z0-9+.\-]*:[^\s<>]*>)(?![^\s<>@]+@[^\s<>]+>)[A-Za-z/!?]')      # automatic links <scheme:...> and <user@host> are not raw HTML
@@ -166,9 +177,20 @@ def classify_slot(ctxt):
 
 def check(case, ctx):
     w = ctx.w
-    src = sanitize(gdoc.ser_doc(case['doc']))
+    if 'sweep' in case:
+        tpl, n, tail = case['sweep']
+        fill = ('word' * (n // 4 + 1))[:n] + tail
+        src = tpl.replace('%s', fill)
+        ctx.cls('length_sweep_cases')
+    else:
+        src = sanitize(gdoc.ser_doc(case['doc']))
     # link attributes on reference definitions carry payloads as well (values are quoted, so everything but the quote itself)
-    src = re.sub(r'(?m)^(\[(?:ref1|Ref Two|r-3)\]: \S+(?: "[^"\n]*")?)$', lambda m: m.group(1) + ' class="q7a<&>07q" width=40px', src)
+    # (also: a name used twice, and names the writer prints itself -- an element can carry each attribute once only)
+    ATTRS = [' class="q7a<&>07q" width=40px', ' width=10 width=20', ' class=x class="y" id=z', ' id=x src=y title=z alt=q', ' href=v title=w', ' style="border:0" height=3em', ' width="50%" style=a']
+    pick = case.get('attrs', 0)
+    src = re.sub(r'(?m)^(\[(?:ref1|Ref Two|r-3)\]: \S+(?: "[^"\n]*")?)$', lambda m: m.group(1) + ATTRS[(pick + len(m.group(1))) % len(ATTRS)], src)
+    if pick:
+        src += '\n\n![alt text](pic.png "t"%s) and [link text](http://e.x/ "t"%s)\n' % (ATTRS[pick % len(ATTRS)], ATTRS[(pick + 3) % len(ATTRS)])
     ext, lang = case['ext'], case['lang']
     ctx.cls('ext_%#x' % ext)
     slots = 0
